@@ -19,6 +19,7 @@ import KafkaVerif.Lemmas.ReaderWorld
 import KafkaVerif.Lemmas.ReaderSystem
 import KafkaVerif.Lemmas.ByteReader
 import KafkaVerif.Lemmas.BufVarInt
+import KafkaVerif.Lemmas.ByteHeader
 
 namespace KV.C02
 
@@ -266,6 +267,26 @@ theorem wrapper_bytes (enc : Int → Bytes → Bytes) (crc : Bytes → Nat) (m :
     (hv : RW.InRange RW.M32 ((enc codec (encMsgs crc inner)).length : Int)) :
     BR.AllOrShort BR.readWrapV1 (encB1 (wrapMsg enc crc m codec inner)) (some (enc codec (encMsgs crc inner))) :=
   BR.readWrapV1_spec (wrapMsg enc crc m codec inner) hk (by simpa [wrapMsg, Spec.RB.optLen] using hv)
+
+/-- `header_bytes`: where the tokenizer reads a fixed-size header (`readH2`: 61 bytes of a v2 batch, `readH1`: 18 / 26
+bytes of a v0 / v1 message, plain or wrapper) the Go code (`readHeader`: `r.readInt64(&r.header.firstOffset)`,
+`r.readInt32(&r.header.length)`, … through the `remain` wrappers, `switch r.header.magic`) obtains the same fields —
+base offset, last offset delta, first timestamp, record count, attributes and the payload size `length − 49`, resp.
+offset, magic, attributes and the size of key + value — with the whole header inside what is left of the message set,
+consuming exactly the header; with the header cut anywhere by the end of the set every path ends in errShortRead.
+With `record_bytes`, `message_bytes`, `wrapper_bytes` and `varint_refill` every token of `tokenize` has its byte-level
+counterpart in the statements of message_reader.go / read.go. -/
+theorem header_bytes (c : Nat) (hc : c < RW.M32) :
+    (∀ f : Spec.RB.FrameV2, f.WF →
+      BR.AllOrShort BR.readHeaderB (encH2 c f)
+        (.v2 ⟨f.baseOffset, f.lastOffsetDelta, f.firstTs, f.count, f.attributes, f.payload.length⟩) ∧
+      ∀ x, readH2 (encH2 c f ++ x)
+        = some (⟨f.baseOffset, f.lastOffsetDelta, f.firstTs, f.count, f.attributes, f.payload.length⟩, x)) ∧
+    (∀ m : Spec.RB.Msg, m.WF →
+      BR.AllOrShort BR.readHeaderB (encH1 c m) (.v1 ⟨m.offset, m.magic, m.attributes, (encB1 m).length⟩) ∧
+      ∀ x, readH1 (encH1 c m ++ x) = some (⟨m.offset, m.magic, m.attributes, (encB1 m).length⟩, x)) :=
+  ⟨fun f hf => ⟨BR.readHeaderB_v2 c f hf, fun x => readH2_encH2 c hc f hf x⟩,
+   fun m hm => ⟨BR.readHeaderB_v1 c m hm, fun x => readH1_encH1 c hc m hm x⟩⟩
 
 /-- `varint_refill`: the byte-level theorems above know a reader as the bytes it can still deliver.  The one function of
 read.go whose control flow depends on where the *buffered* bytes end is `readVarInt` (the fixed-width readers use
